@@ -28,7 +28,7 @@ CLS = {"authorization_code": 0, "access_token": 1, "refresh_token": 2, "id_token
 
 class RealSession:
     def __init__(self, oidc=True, jwt_access=False, client_over=None, revoke_refresh_on_issue=False, start=1_700_000_000,
-                 rules="explicit"):
+                 rules="explicit", empty3=False):
         """rules: how the usage rules reach the provider - "explicit" (grant_config spells max_usage: 1 for codes),
         "implied" (grant_config lists supports_minting / expires_in only: the single use of a code is the library's own
         default), "per-client" (the same implied rules as token_usage_rules of every client, no grant_config rules)"""
@@ -54,6 +54,9 @@ class RealSession:
                                       authz=authz, endpoints=eps)
         c3 = self.server.context.cdb["client_12"]
         c3.pop("allowed_scopes", None)
+        self.empty3 = empty3
+        if empty3:
+            c3["allowed_scopes"] = []      # allowed no scope at all; absent = every scope the provider knows
         self.clock = srv.Clock(start).install()
         self.ctx = self.server.context
         self.sm = self.ctx.session_manager
